@@ -16,6 +16,7 @@ from lbry.wallet.bcd_data_stream import BCDataStream
 from lbry.wallet.script import (OutputScript, InputScript, Script, tokenize, push_data, DataToken, SmallIntegerToken)
 from lbry.wallet.transaction import Transaction, Output, Input
 from lbry.schema.purchase import Purchase
+from lbry.crypto.hash import hash160
 
 import vlib
 
@@ -398,6 +399,17 @@ def py_values(kind, vspec):
             sub = InputScript(template=sub_t, values=spy)
             py[k], plain[k] = sub, {'template': v['sub']['template'], 'values': splain, 'source': sub.source}
             mod[k] = {'subgen': {'template': v['sub']['template'], 'values': smod}}
+        elif 'subsrc' in v:   # a subscript given by its source bytes, as Input.spend_time_lock(script_source=...) receives it
+            src = bytes.fromhex(v['subsrc']['hex'])
+            sub = InputScript(source=src, template=InputScript.TIME_LOCK_SCRIPT)
+            try:
+                sub.parse(sub.template)        # what redeem_time_lock_script_hash does
+            except ValueError:
+                pass                           # not a time-lock script: Template.generate must still push it verbatim
+            st = ref_tokens(src)
+            rv = ref_match(IN_SHAPES['timelock'], st) if st else None
+            py[k], plain[k] = sub, {'template': 'timelock', 'values': rv, 'source': src, 'given': True}
+            mod[k] = {'sub': src.hex()}
     return py, plain, mod
 
 
@@ -412,6 +424,8 @@ def py_values_model_only(vspec):
             mod[k] = {'k': str(v['k'])}
         elif 'l' in v:
             mod[k] = {'l': [data_of(x).hex() for x in v['l']]}
+        elif 'subsrc' in v:
+            mod[k] = {'sub': v['subsrc']['hex']}
         else:
             mod[k] = {'subgen': {'template': v['sub']['template'], 'values': py_values_model_only(v['sub']['values'])}}
     return mod
@@ -451,6 +465,8 @@ def plain_equal(expected, got):
         if isinstance(e, dict):   # subscript
             if not isinstance(g, Script) or g.source != e['source']:
                 return False
+            if e['values'] is None:
+                continue
             try:
                 if g.template.name != e['template'] or not plain_equal(e['values'], g.values):
                     return False
@@ -515,7 +531,16 @@ def monitor_generated(kind, name, plain, py, src):
     flat = {k: (v['source'] if isinstance(v, dict) else v) for k, v in plain.items()}
     want = ref_assemble(shape, flat)
     if src != want:
+        for k, v in plain.items():
+            if isinstance(v, dict) and not src.endswith(ref_push(v['source'])):
+                return (f'{name}: the subscript value {k} is not embedded verbatim: given {v["source"].hex()[:80]}, '
+                        f'generated script ends {src[-len(v["source"]) - 3:].hex()[:86]}')
         return f'{name}: generated script differs from the minimal-push assembly ({src[:40].hex()}.. vs {want[:40].hex()}..)'
+    given = [v for v in plain.values() if isinstance(v, dict) and v.get('given')]
+    if given and given[0]['values'] is not None:
+        bad = monitor_spend_path(py, given[0]['source'], src)
+        if bad:
+            return bad
     if name in NAMED:
         try:
             alt = NAMED[name](py).source
@@ -556,6 +581,30 @@ def monitor_generated(kind, name, plain, py, src):
         rt = impl_row_type(s)
         if not isinstance(rt, str) and rt != ROW_OF_CLASS.get(klass, 0):
             return f'{name}: txo_to_row stores type {rt} for a {klass} script'
+    return None
+
+
+def monitor_spend_path(py, redeem, src):
+    """the wallet's own steps for a third-party redeem script: pay_script_hash(hash160(redeem)) -> Input.spend_time_lock
+    -> fill in signature / pubkey as Transaction.sign does -> generate -> wire -> parse: the carried script must be the
+    given bytes (it has to hash to the script hash the output is locked to)"""
+    try:
+        alt = InputScript.redeem_time_lock_script_hash(py['signature'], py['pubkey'], script_source=redeem).source
+    except Exception as e:  # noqa
+        return f'redeem_time_lock_script_hash(script_source=...) raised {err_class(e)} for a script with the time-lock shape'
+    if alt != src:
+        return 'redeem_time_lock_script_hash(script_source=...) builds a different script than the template with the same values'
+    locked = Transaction(height=10).add_outputs([Output.pay_script_hash(5000, hash160(redeem))]).outputs[0]
+    txi = Input.spend_time_lock(locked, redeem)
+    tx = Transaction().add_inputs([txi]).add_outputs([Output.pay_pubkey_hash(4000, b'\x09' * 20)])
+    txi.script.values['signature'] = py['signature']
+    txi.script.values['pubkey'] = py['pubkey']
+    txi.script.generate()
+    tx._reset()
+    carried = Transaction(tx.raw).inputs[0].script.values['script'].source
+    if carried != redeem or hash160(carried) != locked.script.values['script_hash']:
+        return (f'spending a time lock: the input carries redeem script {carried.hex()[:80]} but the output is locked to '
+                f'hash160 of the given {redeem.hex()[:80]}')
     return None
 
 
@@ -970,6 +1019,46 @@ def gen_values(rng, kind, name, force_len=None, force_field=None):
     return vals
 
 
+def any_push(rng, d):
+    """one of the push forms the tokenizer accepts for this datum (the minimal one half of the time)"""
+    forms = [ref_push(d)]
+    if len(d) <= 0xff:
+        forms.append(b'\x4c' + bytes([len(d)]) + d)
+    if len(d) <= 0xffff:
+        forms.append(b'\x4d' + len(d).to_bytes(2, 'little') + d)
+    forms.append(b'\x4e' + len(d).to_bytes(4, 'little') + d)
+    return forms[0] if rng.random() < 0.5 else rng.choice(forms)
+
+
+def gen_third_party_timelock(rng):
+    """a redeem script with the time-lock shape but not (necessarily) in the library's canonical encoding: fixed-width or
+    padded heights, any accepted push form; sometimes one more edit (then it may stop being a time-lock script)"""
+    h = rng.choice(HEIGHTS[:30]) if rng.random() < 0.5 else rng.randrange(2 ** rng.randrange(1, 40))
+    c = rng.random()
+    if c < 0.25:
+        hb = ref_int(h)
+    elif c < 0.55:
+        w = rng.choice([4, 4, 8, 5, 3])
+        hb = h.to_bytes(max(w, (h.bit_length() + 7) // 8), 'little')
+    elif c < 0.8:
+        hb = ref_int(h) + b'\x00' * rng.randrange(1, 4)
+    else:
+        hb = h.to_bytes((h.bit_length() + 7) // 8 or 1, 'little')     # no room for a sign bit
+    pkh = rng.randbytes(rng.choice([20, 20, 20, 0, 1, 32, 76]))
+    head = any_push(rng, hb) if hb else b'\x01\x00'
+    body = head + b'\xb1\x75\x76\xa9' + (any_push(rng, pkh) if pkh or rng.random() < 0.5 else b'\x00') + b'\x88\xac'
+    if rng.random() < 0.12:
+        body = apply_edits(body, [rand_edit(rng, len(body))])
+    return body
+
+
+def gen_spend_third_party(rng):
+    vals = {'signature': {'b': mk_data(rng, rng.choice([0, 1, 71, 72, 73, 80]))},
+            'pubkey': {'b': mk_data(rng, rng.choice([0, 33, 33, 65]))},
+            'script': {'subsrc': {'hex': gen_third_party_timelock(rng).hex()}}}
+    return {'op': 'generate', 'kind': 'input', 'template': 'script_hash+timelock', 'values': vals}
+
+
 def gen_multisig(rng, allow_bad=False):
     n_sig, n_pk = rng.randrange(1, 4), rng.randrange(1, 5)
     if allow_bad and rng.random() < 0.15:
@@ -1144,6 +1233,13 @@ def main(run):
             tgt = vals if name == 'timelock' else vals['script']['sub']['values']
             tgt['height'] = {'i': h}
             check_generate(run, model, {'op': 'generate', 'kind': 'input', 'template': name, 'values': vals})
+    # the subscript given as BYTES (a redeem script written by somebody else): must be embedded verbatim
+    for _ in range(vlib.scaled(run.tier, 250, 6000)):
+        case = gen_spend_third_party(rng)
+        if case['values']['script']['subsrc']['hex'] == '':
+            continue
+        run.count('third-party-redeem-script')
+        check_generate(run, model, case)
     for _ in range(vlib.scaled(run.tier, 30, 600)):
         check_generate(run, model, {'op': 'generate', 'kind': 'input', 'template': 'script_hash+multi_sig',
                                     'values': gen_multisig(rng, allow_bad=True)})
